@@ -16,7 +16,7 @@ import (
 	"strings"
 )
 
-var reDecl = regexp.MustCompile(`^D(\d+)P(\d+)$`)
+var reDecl = regexp.MustCompile(`^[dD](\d+)P(\d+)(G|Obj)?$`)
 var reType = regexp.MustCompile(`D\d+T(\d+)`)
 var reValue = regexp.MustCompile(`"P(\d+)\.0\(\)"`)
 var reErr = regexp.MustCompile(`^err\d*$`)
